@@ -114,18 +114,17 @@ Theorem c12_range_contains : forall unit instants, 0 < unit ->
 Proof. exact range_contains. Qed.
 
 (** The files named in result.js's artifact tree are exactly the files left
-    once removeNonUploadableFiles has run - `#name#` and `name~` files are in
-    neither - provided the actors left only regular files and symbolic
-    links. *)
-Theorem c12_listed_tree_is_what_survives : forall cs,
-  forallb all_uploadable cs = true -> listed_in cs = surviving_in cs.
+    once removeNonUploadableFiles has run, whatever the actors left in the run
+    directory: `#name#` and `name~` files, fifos, sockets and devices are in
+    neither; files below a directory with such a name are in both. *)
+Theorem c12_listed_tree_is_what_survives : forall cs, listed_in cs = surviving_in cs.
 Proof. exact listed_tree_is_what_survives. Qed.
 
-(** Without the proviso the statement is false of the code: a fifo (socket,
-    device) left by an actor is listed, then removed. *)
-Example c12_listed_tree_with_fifo_refuted :
-  exists cs, listed_in cs <> surviving_in cs /\
-             listed_in cs = [[bs "artifacts"; bs "a"; bs "pipe1"]] /\ surviving_in cs = [].
+(** The pinned code (before fix 7f842c1) listed files of any kind: a fifo
+    left by an actor was named, then removed. *)
+Example c12_pinned_listing_named_removed_fifo_refuted :
+  exists cs, listed_in_pinned cs <> surviving_in cs /\
+             listed_in_pinned cs = [[bs "artifacts"; bs "a"; bs "pipe1"]] /\ surviving_in cs = [] /\ listed_in cs = [].
 Proof.
   exists [NDir (bs "artifacts") [NDir (bs "a") [NFile (bs "pipe1") KOther; NFile (bs "f~") KReg; NFile (bs "#x#") KReg]]].
   vm_compute. repeat split. discriminate.
@@ -154,9 +153,8 @@ Proof. vm_compute. repeat split. Qed.
 Example c12_nonvacuous_tree :
   let cs := [NDir (bs "artifacts") [NDir (bs "alice") [NFile (bs "file.txt") KReg; NFile (bs "backup~") KReg;
                                                           NFile (bs "#edit#") KReg; NFile (bs "#half~") KReg;
-                                                          NDir (bs "old~") [NFile (bs "kept.txt") KSym]]];
+                                                          NDir (bs "old~") [NFile (bs "kept.txt") KSym; NFile (bs "sock") KOther]]];
              NFile (bs "result.js") KReg] in
-  forallb all_uploadable cs = true /\
   listed_in cs = [[bs "artifacts"; bs "alice"; bs "file.txt"]; [bs "artifacts"; bs "alice"; bs "old~"; bs "kept.txt"]; [bs "result.js"]].
 Proof. vm_compute. repeat split. Qed.
 
